@@ -142,9 +142,17 @@ func (arr *SexpArray) NumDim() int {
 type SexpArraySelector struct {
 	Select    *SexpArray
 	Container *SexpArray
+
+	printing bool // SexpString is in progress
 }
 
 func (si *SexpArraySelector) SexpString(ps *PrintState) string {
+	if si.printing {
+		// the selector selects (something that holds) itself
+		return "(arraySelector ...)"
+	}
+	si.printing = true
+	defer func() { si.printing = false }()
 	//Q("in SexpArraySelector.SexpString(), si.Container.Env = %p", si.Container.Env)
 	rhs, err := si.RHS(si.Container.Env)
 	if err != nil {
